@@ -21,19 +21,19 @@ THEOREMS = ['Props.C12.' + t for t in [
     'found_column_contains', 'outside_gives_none', 'in_polygon_in_bounding_rectangle', 'contains_point_implies_near_point',
     'methods_agree', 'all_columns_hold_answer', 'plain_agrees_with_exhaustive', 'quadtree_agrees_or_none_partial',
     'quadtree_partition', 'quadtree_root', 'sub_rectangles_cover', 'sub_rectangles_inside',
-    'quadtree_leaf_contains_point', 'quadtree_leaf_exists', 'search_wave_fuel_suffices',
+    'quadtree_leaf_contains_point', 'quadtree_leaf_exists', 'search_wave_fuel_suffices', 'quadtree_search_complete_partial',
     'block_at_point_spec', 'block_reported_is_in_found_column', 'block_at_point_in_layer', 'block_at_point_raised_surface',
     'block_at_point_none_outside', 'block_at_point_none_above_or_below', 'reported_block_contains_point_partial',
     'containing_block_is_the_reported_one']]
-LEVEL_TEXT = ('Proof (partial): 23 Lean theorems, no sorry, about an exact-rational executable model of in_polygon / rectangles / quadtree / '
+LEVEL_TEXT = ('Proof (partial): 24 Lean theorems, no sorry, about an exact-rational executable model of in_polygon / rectangles / quadtree / '
               'column_containing_point (all search aids) / layer and block location: every reported column contains the point for every aid '
               'combination; a point outside every column gives None; in_polygon implies in-bounding-rectangle for every polygon (crossing parity, '
               'unconditional after the repair of in_polygon); under UniqueAt plain search = exhaustive search = search with any guess / bounding '
-              'rectangle or polygon holding the point / column subset holding the answer; with a quadtree the result is the same column or None; '
+              'rectangle or polygon holding the point / column subset holding the answer; with a quadtree the result is the same column or None, and is that column whenever it is reachable in the neighbour graph that search_wave explores (BFS completeness; hypothesis evaluated on every explored point); '
               'the quadtree constructor partitions elements among the four sub-rectangles at every node and leaf(pos) has bounds containing pos; '
               'the reported block is characterised (layer logic, raised surface, None above/below/outside) and is the unique block containing the '
-              'point at or below ground level. PARTIAL: quadtree completeness (search finds the column) is not proved (false for domains with '
-              'holes); block_contains_point for the reported block needs z <= ground level (the real function disagrees under a raised surface); '
+              'point at or below ground level. PARTIAL: the planar half of quadtree completeness (reachability holds when the segment centre-point stays in the domain) is not proved '
+              '(false for domains with holes: witness kept as an example); block_contains_point for the reported block needs z <= ground level (the real function disagrees under a raised surface); '
               'all column_track clauses are correspondence + exact-oracle only (executable Lean model compared with the code, no theorems).')
 LEVEL_NOTE = ('Trusted: Lean kernel (+propext, Classical.choice, Quot.sound); hand-written models Model/Locate.lean, Model/Track.lean tied to /repo by '
               'five correspondence facets on every run (exact rationals of the doubles; cases decided by less than 1e-9 relative are discarded as '
@@ -626,6 +626,30 @@ def qtree_tie(gc, real_dump, scale):
     return False
 
 
+def reachable_in_wave_graph(gc, all_elts, leaf, E):
+    """hypothesis of quadtree_search_complete_partial, evaluated independently: is column E reachable from an element
+    of the leaf through neighbours that are tree elements and whose bounding boxes meet the leaf rectangle?"""
+    (a, b), elts = leaf
+    allset = set(all_elts)
+
+    def meets(i):
+        P = gc.polys[i]
+        x0, y0, x1, y1 = min(q[0] for q in P), min(q[1] for q in P), max(q[0] for q in P), max(q[1] for q in P)
+        return x1 >= a[0] and b[0] >= x0 and y1 >= a[1] and b[1] >= y0
+    seen = set(elts)
+    todo = list(elts)
+    while todo:
+        x = todo.pop()
+        if x == E:
+            return True
+        for c in gc.cols[x].neighbour:
+            n = gc.idx.get(id(c))
+            if n is not None and n in allset and n not in seen and meets(n):
+                seen.add(n)
+                todo.append(n)
+    return E in seen
+
+
 def oracle_qtree(gc, real_dump):
     """clauses about the tree itself (model-independent): every element of a node with >1 elements whose centre is
     in the node's bounds appears in exactly one child; children elements are disjoint and come from the parent"""
@@ -748,6 +772,14 @@ def run_geo(ctx, res, gc, rng, npoints, fixed_points=None, fixed_z=None, all_gue
             P = FP(p)
             if not (a0[0] <= P[0] <= b0[0] and a0[1] <= P[1] <= b0[1]):
                 vio(res, 'quadtree-leaf-bounds', '%s: leaf(%r) has bounds not containing the point' % (label, p), dict(kind='point', recipe=gc.recipe, p=list(p)))
+            if E is not None:
+                hn = 'Reachable (containing column reachable from the leaf in the graph search_wave explores)'
+                res.hyp.setdefault(hn, [0, 0])
+                res.hyp[hn][1] += 1
+                rch = reachable_in_wave_graph(gc, real_dump[0][2], rl, E)
+                res.hyp[hn][0] += 1 if rch else 0
+                if not rch:
+                    res.count('quadtree:column-unreachable-from-leaf:%s' % ('holed-domain' if gc.holes else 'listed-geometry-class'))
         elif rl is None and inbox:
             vio(res, 'quadtree-leaf-none', '%s: leaf(%r) is None for a point in the root bounds' % (label, p), dict(kind='point', recipe=gc.recipe, p=list(p)))
         # every search-aid combination
